@@ -655,6 +655,7 @@ class WSDiscovery:
         payload.Scopes = service.scopes
         payload.XAddrs = service.x_addrs
         payload.EndpointReference.Address = service.epr
+        payload.MetadataVersion = service.metadata_version
 
         inf = HeaderInformationBlock(action=payload.action, addr_to=ADDRESS_ALL)
 
